@@ -22,6 +22,7 @@ RULE = (
     'leaves; an atom type given as a factory function. Round 6: a configuration that leaves an operator without a '
     'step; user-defined operators whose constructor reads input. Rounds 7-8: step lists that name unselected '
     'operators; function arguments of equal hash(); a function among the operators without the plain parenthesis. '
+    'Round 10: texts that differ only in their blanks but not in meaning or validity, one after the other. '
     'Distinct = distinct case JSON.'
 )
 ASSUMPTIONS = ["single-threaded histories", "exception messages are not compared (they embed token reprs), only the type"]
@@ -181,8 +182,36 @@ def long_history(draw):
     return {"calls": calls + [draw(deep_fail()), draw(default_expr())]}
 
 
+# expressions that differ only in where the blanks stand but not in what they mean: a blank inside a number or inside a
+# two-character operator makes the text ill-formed (default atom), a blank inside a word is part of the word (string atom)
+RESPACED = [
+    ("default", ["12 + 1", "1 2 + 1", "1 2+1", "12+1"]),
+    ("default", ["2 ** 3", "2 * * 3", "2**3", "2* *3"]),
+    ("default", ["2 <= 30", "2 < = 30", "2 <= 3 0", "2<=30"]),
+    ("default", ["1 && 0", "1 & & 0", "1&&0"]),
+    ("default", ["sin(10) + 1.5", "sin(1 0) + 1.5", "sin(10) + 1. 5", "s in(10) + 1.5"]),
+    ("default", ["3 != 3", "3 ! = 3", "3 !=3"]),
+    ("string", ["limit + 100 km/s", "limit + 100km/s", "limit+100 km/s", "li mit + 100 km/s"]),
+    ("string", ["(abcd) > (ab cd)", "(ab cd) > (abcd)", "(abcd)>(ab cd)", "(a bcd) > (abc d)"]),
+    ("string", ["x y + z", "xy + z", "x y+z", "x  y + z"]),
+]
+
+
+@st.composite
+def respaced_history(draw):
+    cfg, family = draw(st.sampled_from(RESPACED))
+    texts = draw(st.lists(st.sampled_from(family), min_size=2, max_size=5))
+    calls = []
+    for t in texts:
+        calls.append({"cfg": cfg, "text": t, "fail": None, "with": draw(st.integers(0, 4)) == 0})
+        if draw(st.integers(0, 2)) == 0:
+            calls.append(draw(call))
+    return {"calls": calls, "respaced": True}
+
+
 def strategies(tier):
     return {"history": (history(12 if tier == "quick" else 30), 1500, 30000),
+            "respaced": (respaced_history(), 200, 4000),
             "long_history": (long_history(), 160, 3000, 20)}
 
 
@@ -384,6 +413,11 @@ def _check(case, v, live, failed_before, nt, err0):
             v.label("failing_call")
         elif failed_before.get(cfg):
             nt = True
+    if case.get("respaced"):
+        # non-trivial: the same characters in another spacing were answered differently by fresh instances
+        outs = {repr(p_) for c_, p_ in zip(case["calls"], pristine) if c_["fail"] is None and "with" in c_}
+        nt = nt or len(outs) >= 2
+        v.label("same_text_in_other_spacing")
     v.nt(nt)
     v.label("history", *{"cfg_" + c["cfg"] for c in case["calls"]})
     return v
